@@ -48,6 +48,8 @@ type Program struct {
 	Cfg      Cfg        `json:"cfg"`
 	Keys     []vlib.Str `json:"keys"`
 	Seed     int64      `json:"seed"` // tower heights of the memtables
+	Pad      vlib.Str   `json:"pad"`  // byte the value tokens are padded with (values are not only ASCII)
+	Big      bool       `json:"multi_mib_tables,omitempty"`
 	Free     bool       `json:"free"` // flusher runs free (no gates)
 	AutoRead bool       `json:"auto_read"`
 	Ops      []Op       `json:"ops"`
@@ -73,10 +75,10 @@ func genCfg(t *rapid.T, small bool) Cfg {
 	c := Cfg{
 		SkipListMaxLevel: rapid.SampledFrom([]int{0, 1, 2, 4, 9, 12}).Draw(t, "slMax"),
 		SkipListP:        rapid.SampledFrom([]float64{0, 0.1, 0.25, 0.5, 0.75, 0.9}).Draw(t, "slP"),
-		ImmBuf:           rapid.SampledFrom([]int{0, 0, 1, 1, 2, 4}).Draw(t, "immBuf"),
+		ImmBuf:           rapid.SampledFrom([]int{0, 0, 1, 1, 2, 4, 10}).Draw(t, "immBuf"),
 		Block:            rapid.SampledFrom([]int{0, 1, 1, 20, 60, 200, 4096}).Draw(t, "block"),
-		L0Target:         rapid.SampledFrom([]int{1, 1, 2, 2, 3, 4}).Draw(t, "l0"),
-		Ratio:            rapid.SampledFrom([]int{1, 1, 2, 3, 10}).Draw(t, "ratio"),
+		L0Target:         rapid.SampledFrom([]int{1, 1, 2, 2, 3, 4, 5, 0}).Draw(t, "l0"),
+		Ratio:            rapid.SampledFrom([]int{1, 1, 2, 3, 10, 0}).Draw(t, "ratio"),
 	}
 	if small {
 		c.MemThreshold = rapid.SampledFrom([]int{1, 30, 60, 100, 150, 250, 400, 700}).Draw(t, "mem")
@@ -110,6 +112,10 @@ func genUps(t *rapid.T, nkeys, maxN int, withGets bool) []UpOp {
 }
 
 func genVLen(t *rapid.T) int {
+	if rapid.IntRange(0, 149).Draw(t, "hugeValue") == 0 {
+		// rarely a value far above every block / buffer size (one data block of > 64 KiB)
+		return rapid.SampledFrom([]int{5000, 70000, 140000}).Draw(t, "hugeLen")
+	}
 	return rapid.SampledFrom([]int{-1, 0, 0, 0, 5, 20, 60, 150, 300}).Draw(t, "vlen")
 }
 
@@ -118,6 +124,7 @@ var misuseKinds = []string{"set_finished", "del_finished", "commit_finished", "g
 
 func genProgram(t *rapid.T, pf Profile) Program {
 	p := Program{Cfg: genCfg(t, pf.SmallMem), Seed: rapid.Int64().Draw(t, "seed"), Free: pf.Free, AutoRead: pf.Name == "C01" || pf.Name == "C02"}
+	p.Pad = vlib.Str(rapid.SampledFrom([]string{"x", "x", "x", "\x00", "\xff", "@", "\n", "\x80"}).Draw(t, "pad"))
 	nk := rapid.IntRange(3, 10).Draw(t, "nkeys")
 	seen := map[string]bool{}
 	for len(p.Keys) < nk {
@@ -130,6 +137,10 @@ func genProgram(t *rapid.T, pf Profile) Program {
 		if k != "" && !seen[k] {
 			seen[k] = true
 			p.Keys = append(p.Keys, vlib.Str(k))
+			if sib, ok := vlib.Sibling[k]; ok && !seen[sib] && len(p.Keys) < nk && rapid.Bool().Draw(t, "sibling") {
+				seen[sib] = true
+				p.Keys = append(p.Keys, vlib.Str(sib))
+			}
 		}
 	}
 	type w struct {
@@ -151,6 +162,26 @@ func genProgram(t *rapid.T, pf Profile) Program {
 	}
 	n := rapid.IntRange(10, pf.MaxOps).Draw(t, "nops")
 	cur := p.Cfg
+	if (pf.Name == "C01" || pf.Name == "C02") && rapid.IntRange(0, 79).Draw(t, "bigTables") == 41 {
+		// size class: ~100 commits of 64 KiB values with the default (4 MiB) memtable threshold,
+		// i.e. tables whose data region is several MiB, then flusher work / reopen cycles
+		p.Big = true
+		p.Cfg.MemThreshold = rapid.SampledFrom([]int{0, 0, 64 << 20}).Draw(t, "bigMem")
+		p.Cfg.Block = rapid.SampledFrom([]int{0, 4096, 1 << 20}).Draw(t, "bigBlock")
+		cur = p.Cfg
+		nbig := rapid.IntRange(70, 110).Draw(t, "nbig")
+		for i := 0; i < nbig; i++ {
+			// no reopen in between: a memtable keeps every version, so the table it is flushed to
+			// really holds several MiB (a compaction would discard the shadowed versions again)
+			p.Ops = append(p.Ops, Op{Op: "update", Ups: []UpOp{{Op: "set", K: rapid.IntRange(0, nk-1).Draw(t, "k"), VLen: 65536}}})
+		}
+		p.Ops = append(p.Ops, Op{Op: "fidle"}, Op{Op: "checkall"})
+		if pf.Reopen > 0 {
+			c := cur
+			p.Ops = append(p.Ops, Op{Op: "reopen", Cfg: &c}, Op{Op: "checkall"})
+		}
+		n = rapid.IntRange(3, 12).Draw(t, "nopsAfterBig")
+	}
 	for i := 0; i < n; i++ {
 		kind := rapid.SampledFrom(kinds).Draw(t, "op")
 		if pf.Templates && rapid.IntRange(0, 14).Draw(t, "tmpl") == 0 {
@@ -246,4 +277,6 @@ func genTemplate(t *rapid.T, nk int) []Op {
 	return out
 }
 
-func (p Program) String() string { return fmt.Sprintf("program(%d keys, %d ops)", len(p.Keys), len(p.Ops)) }
+func (p Program) String() string {
+	return fmt.Sprintf("program(%d keys, %d ops)", len(p.Keys), len(p.Ops))
+}
